@@ -2,7 +2,12 @@
 
 package fit
 
-import "github.com/tormoder/fit/internal/types"
+import (
+	"bytes"
+
+	"github.com/tormoder/fit/dyncrc16"
+	"github.com/tormoder/fit/internal/types"
+)
 
 // C13 — local message types: the latest definition wins and slots are
 // independent.
@@ -321,5 +326,52 @@ func H13c() {
 			vAssert(vSlotUnchanged(before[q], after[q]), "C13.redef.other-slots-untouched")
 		}
 	}
+	vReached("end")
+}
+
+// H13d: definitions are per file. A chain of two files: the first defines
+// local type k (parameter, 1..15) and uses it; the second (its own header,
+// file_id definition and record) carries a data record of local type k
+// without defining it — with a normal header, or for k <= 3 also with a
+// compressed-timestamp header. DecodeChained must fail in the second file
+// exactly as Decode fails on the second file alone.
+func H13d() {
+	k := vParam("k")
+	compressed := vParam("comp") == 1
+	mkfile := func(withDef bool) []byte {
+		var body bytes.Buffer
+		body.Write([]byte{0x40, 0, 0, 0, 0, 2, 0, 1, 0x00, 1, 2, 0x84})
+		body.Write([]byte{0x00, 4, 1, 0})
+		// a timestamped record through local 15 so that compressed headers have a reference
+		body.Write([]byte{0x4F, 0, 0, 20, 0, 1, 253, 4, 0x86})
+		body.Write([]byte{0x0F, 0x00, 0x10, 0x20, 0x30})
+		if withDef {
+			body.Write([]byte{0x40 | byte(k), 0, 0, 20, 0, 1, 3, 1, 0x02})
+		}
+		hr := vByte()
+		if compressed {
+			body.Write([]byte{0x80 | byte(k)<<5 | 3, hr})
+		} else {
+			body.Write([]byte{byte(k), hr})
+		}
+		hdr := make([]byte, 14)
+		vHeader14(hdr, uint32(body.Len()))
+		c := dyncrc16.Checksum(hdr[:12])
+		hdr[12], hdr[13] = byte(c), byte(c>>8)
+		var out bytes.Buffer
+		out.Write(hdr)
+		out.Write(body.Bytes())
+		fc := dyncrc16.Checksum(out.Bytes())
+		out.Write([]byte{byte(fc), byte(fc >> 8)})
+		return out.Bytes()
+	}
+	one, two := mkfile(true), mkfile(false)
+	f1, e1 := Decode(bytes.NewReader(one))
+	vAssert(e1 == nil && f1 != nil, "C13.chain.first-file-decodes")
+	_, e2 := Decode(bytes.NewReader(two))
+	vAssert(e2 != nil, "C13.chain.undefined-slot-is-error-alone")
+	files, err := DecodeChained(bytes.NewReader(append(append([]byte{}, one...), two...)))
+	vAssert(err != nil, "C13.chain.definitions-do-not-survive-into-the-next-file")
+	vAssert(len(files) >= 1, "C13.chain.first-file-returned")
 	vReached("end")
 }
